@@ -12,6 +12,7 @@ DISCOVERY = "pkg/discovery"
 AGENT = "pkg/agent"
 ROUTING = "pkg/routing"
 STORAGE = "pkg/storage"
+DTNTOOL = "cmd/dtn-tool"
 
 HOOK_COMMITS = ["verif hooks: named hook points for the verification harness (no-ops without the verif build tag)"]
 NOT_YET = {}
@@ -29,6 +30,7 @@ PROPS = {
         "units": [
             {"name": "c01.valid", "pkg": BPV7, "test": "TestVerifC01Valid", "shards_t": 16},
             {"name": "c01.unregistered", "pkg": BPV7, "test": "TestVerifC01Unregistered", "shards_t": 8},
+            {"name": "c01.dtn-tool", "pkg": DTNTOOL, "test": "TestVerifC01DtnTool", "shards_t": 8, "crash_is_violation": True},
             {"name": "c01.mutants", "pkg": BPV7, "test": "TestVerifC01Mutants", "shards_t": 16},
             {"name": "c01.inner-eids", "pkg": BPV7, "test": "TestVerifC01InnerEIDs"},
             {"name": "c01.fuzz", "pkg": BPV7, "kind": "fuzz", "fuzz": "FuzzVerifC01", "seconds": 240, "tiers": ["thorough"]},
